@@ -12,7 +12,7 @@ use wire::validate::*;
 use wire::*;
 use wtransport::endpoint::ConnectOptions;
 
-const RULE: &str = "scenario = session setup from the C02 generator (URL, 0..12 header fields, server decision) with the wtransport endpoint in either role against a recording raw peer, followed by 0..6 application streams (uni/bidi, generated payloads), 0..4 datagrams and a final Connection::close(code, reason); session ids 0 and 256 (64 burnt request streams); the recording peer advertises the default or a small per-stream receive window (1..400 bytes), so that SETTINGS, HEADERS, stream headers and payloads are written across flow-control boundaries. Everything the endpoint opened or sent is decoded with the reference codec: exactly one control stream whose first frame is a single SETTINGS (ENABLE_WEBTRANSPORT=1, H3_DATAGRAM=1, ENABLE_CONNECT_PROTOCOL=1, QPACK capacity/blocked absent or 0, no id twice, no reserved id, no second SETTINGS, nothing that is not a frame); request / response field sections with prefix (0,0), static or literal representations only, pseudo-fields first, the five request pseudo-fields resp. a 3-digit :status; every WT uni stream 0x54||session||bytes, every WT bidi stream 0x41||session||bytes, every datagram quarter-id||payload; the close code and reason the peer sees are the application's; ALPN is exactly h3. Non-trivial: the endpoint emitted >= 1 HEADERS and >= 1 WT stream or datagram; distinct = distinct scenario";
+const RULE: &str = "scenario = session setup from the C02 generator (URL, 0..12 header fields, server decision) with the wtransport endpoint in either role against a recording raw peer, followed by 0..6 application streams (uni/bidi, generated payloads), 0..4 datagrams and a final Connection::close(code, reason); session ids 0, 256 and 4 x (1..90) with 62 / 63 / 64 burnt request streams preferred (1-/2-byte boundary of the quarter stream id); the recording peer advertises the default or a small per-stream receive window (1..400 bytes), so that SETTINGS, HEADERS, stream headers and payloads are written across flow-control boundaries. Everything the endpoint opened or sent is decoded with the reference codec: exactly one control stream whose first frame is a single SETTINGS (ENABLE_WEBTRANSPORT=1, H3_DATAGRAM=1, ENABLE_CONNECT_PROTOCOL=1, QPACK capacity/blocked absent or 0, no id twice, no reserved id, no second SETTINGS, nothing that is not a frame); request / response field sections with prefix (0,0), static or literal representations only, pseudo-fields first, the five request pseudo-fields resp. a 3-digit :status; every WT uni stream 0x54||session||bytes, every WT bidi stream 0x41||session||bytes, every datagram quarter-id||payload; the close code and reason the peer sees are the application's; ALPN is exactly h3. Non-trivial: the endpoint emitted >= 1 HEADERS and >= 1 WT stream or datagram; distinct = distinct scenario";
 
 #[derive(Clone, Debug, Serialize, Deserialize)]
 pub struct Case {
@@ -27,6 +27,11 @@ pub struct Case {
     /// values make every frame and stream header the endpoint writes cross flow-control boundaries
     #[serde(default)]
     pub peer_window: u16,
+    /// number of request streams the raw client burns before its CONNECT (0 = by `high_session`:
+    /// 64 or none); the session id is 4 x that number, so 63 / 64 sit on the 1-/2-byte boundary of
+    /// the quarter stream id that prefixes every datagram
+    #[serde(default)]
+    pub burn: u16,
 }
 
 pub fn case_strategy() -> impl Strategy<Value = Case> {
@@ -39,8 +44,9 @@ pub fn case_strategy() -> impl Strategy<Value = Case> {
         prop_oneof![Just(0u64), Just(0x100), any::<u32>().prop_map(|v| v as u64), 0u64..(1 << 62)],
         proptest::collection::vec(any::<u8>(), 0..30),
         prop_oneof![3 => Just(0u16), 1 => Just(1u16), 1 => Just(4), 1 => Just(11), 1 => Just(24), 1 => 2u16..400],
+        prop_oneof![6 => Just(0u16), 2 => Just(63u16), 1 => Just(62), 1 => Just(64), 1 => Just(15), 1 => Just(16), 1 => 1u16..90],
     )
-        .prop_map(|(mut setup, wt_is_client, high_session, mut streams, datagrams, close_code, close_reason, peer_window)| {
+        .prop_map(|(mut setup, wt_is_client, high_session, mut streams, datagrams, close_code, close_reason, peer_window, burn)| {
             // every window update costs a round trip: with a small peer window keep every frame and
             // stream within ~40 windows (the SETTINGS / HEADERS frames still cross several boundaries)
             if peer_window > 0 {
@@ -63,7 +69,7 @@ pub fn case_strategy() -> impl Strategy<Value = Case> {
                 // the C02 window (wtransport side) stays at its default here
                 setup.window = 0;
             }
-            Case { setup, wt_is_client, high_session, streams, datagrams, close_code, close_reason, peer_window }
+            Case { setup, wt_is_client, high_session, streams, datagrams, close_code, close_reason, peer_window, burn }
         })
 }
 
@@ -186,14 +192,14 @@ async fn exec_async(case: Arc<Case>) -> CaseResult {
             };
             Ok::<_, String>(c)
         };
-        let high = case.high_session;
+        let burn = if case.burn > 0 { case.burn } else if case.high_session { 64 } else { 0 };
         let headers = setup.headers.clone();
         let client = async {
             let (ep, rc) = raw_connect(addr, &raw_tuning).await?;
             let rec = Recorder::start(&rc);
             let control = open_control(&rc, &default_settings()).await?;
-            if high {
-                for _ in 0..64 {
+            if burn > 0 {
+                for _ in 0..burn {
                     let (mut s, _r) = rc.open_bi().await.map_err(|e| e.to_string())?;
                     let _ = s.write_all(&headers_frame(&[(":method".into(), "GET".into(), Default::default())])).await;
                     let _ = s.finish();
@@ -384,6 +390,9 @@ async fn exec_async(case: Arc<Case>) -> CaseResult {
     if session >= 256 {
         labels.push("session>=256");
     }
+    if session == 252 {
+        labels.push("session=252(quarter id 63)");
+    }
     if !dgrams.is_empty() {
         labels.push("datagram-seen");
     }
@@ -420,7 +429,7 @@ pub fn run(run: &Run) {
         |c| judge(|| exec(c), false, "C16:hang"),
         |c| serde_json::to_value(c).unwrap(),
     );
-    for l in ["role:client", "role:server", "session>=256", "datagram-seen", "wt-uni-seen", "wt-bidi-seen", "rejected-session", "peer-window<=24"] {
+    for l in ["role:client", "role:server", "session>=256", "datagram-seen", "wt-uni-seen", "wt-bidi-seen", "rejected-session", "peer-window<=24", "session=252(quarter id 63)"] {
         run.essential(l);
     }
 }
